@@ -50,6 +50,11 @@ def protocol_language(ctx, rule):
         mtch = A.regex("(?:%s)" % rx.pattern.lstrip("^"), rx.flags, "match")
         w = A.equiv(srch, mtch)
         ctx.ob(rule, "start-anchored", w is None, "PROTOCOL_RE is not anchored at the start: %r" % (w,), site, witness=w and w[1])
+        # a scheme is written with its colon: 'localhost//a' is a scheme-less host followed by an empty path segment, not a url
+        # of scheme 'localhost' (read as a scheme it gets no 'http://', parses to no host, and normalize_url cuts two characters
+        # off it: 'calhost/a')
+        w = A.subset(full, A.regex(r"(?:[\s\S]*:)?//", 0, "fullmatch"))
+        ctx.ob(rule, "scheme-needs-its-colon", w is None, "PROTOCOL_RE reads %r as a protocol although it has no ':' : a scheme-less host followed by '//' gets no protocol and no host" % w, site, witness=(w or "") + "a")
         # a url whose host part follows is not swallowed: members contain no '.' or '@'
         w = A.witness(A.inter(full, A.regex(r"[\s\S]*[.@?#\s][\s\S]*", 0, "fullmatch")))
         ctx.ob(rule, "no-host-characters", w is None, "PROTOCOL_RE can swallow host text (%r)" % w, site, witness=w)
